@@ -97,7 +97,7 @@ class C03(F.Spec):
         rows, disp = self.rows, self.disp
         board = rng.choice(["relay1", "relay2", "relay4", "relay8", "rs1", "rs2", "rs3", "rs4", "mixed"])
         flags = rng.choice([0, 0, 0x10, 0x02, 0x04])
-        ops = ["board %s %d" % (board, flags), "init"]
+        ops = ["board %s %d" % (board, flags), "init", "calllog 1"]
         if board.startswith("rs") or board == "mixed":
             for k in range(4):
                 if rng.random() < .5:
@@ -132,7 +132,8 @@ class C03(F.Spec):
                         b[fo:fo + fw] = (decl % (1 << (8 * fw))).to_bytes(fw, "little")
                     pl = bytes(b)
                 elif k == "other":
-                    continue
+                    # a size rule the translator does not recognise: probe small and large sizes anyway
+                    pl = bytes(rng.getrandbits(8) for _ in range(rng.choice([0, 1, 2, 3, 4, 8, 40, 200, 1536])))
                 else:
                     pl = bytes(rng.getrandbits(8) for _ in range(rng.choice([0, 3])))
             else:
@@ -186,8 +187,19 @@ class C03(F.Spec):
                 ops.append("adv %d" % rng.choice([10, 100, 1500]))
         return F.Case("gen%d-%s" % (i, board), ops, {"tags": tags, "board": board})
 
+    def _other(self, x):
+        """call ids whose size rule the translator does not recognise: no model verdict to compare"""
+        try:
+            return self.rows.get(int(x.split()[1]), ("x",))[0] == "other"
+        except (ValueError, IndexError):
+            return False
+
     def canon_impl(self, groups):
-        return [[x for x in g if x.startswith("GETDATA ")] for g in groups]
+        return [[x if not (self._other(x) and int(x.split()[1]) in self.rows) else "GETDATA %s *" % x.split()[1]
+                 for x in g if x.startswith("GETDATA ")] for g in groups]
+
+    def canon_model(self, groups):
+        return [[x if not x.endswith(" ?") else "GETDATA %s *" % x.split()[1] for x in g if x.startswith("GETDATA ")] for g in groups]
 
     def run_full(self, case, exe):
         return C.run_lines([exe], case.text())
@@ -236,6 +248,14 @@ class C03(F.Spec):
                 ch = struct.unpack("<i", pl[4:8])[0]
             if ch is None:
                 continue
+            # outputs of the board: relayN -> pins 1..N, rsN -> 1..2N, mixed -> 1..4
+            npins = int(board[5:]) if board.startswith("relay") else (2 * int(board[2:]) if board.startswith("rs") else 4)
+            for x in g:
+                if x.startswith("RELAYHI "):
+                    pin = int(x.split()[1])
+                    if not (1 <= pin <= npins):
+                        fs.append(F.Finding("output-outside-board", "call %d for channel %d drove pin %d, which is no output of board %s"
+                                            % (cid, ch, pin, board)))
             for x in g:
                 if x.startswith("CHG "):
                     _, name, idx, val = x.split()
